@@ -415,6 +415,22 @@ class Decode(Stream):
             out.append("ib%d iter %s" % (j, GM.hx(m)))
             out.append("fb%d rrset 1 %s" % (j, GM.hx(m)))
             out.append("sb%d script 1 %s 0.header,0.skipq,0.marker,0.?skipd:L,0.seek:2,0.rcount" % (j, GM.hx(m)))
+        # buffers beyond 65535 octets whose LATER SECTIONS lie beyond offset 65535 (the iterator API has no length cap):
+        # one question, a NULL/TXT answer of 60-65 kB, then authority and additional records behind it
+        for j in range(4 if tier == "quick" else 24):
+            big = rng.choice([65500, 65535, 65480 + j, 60000])
+            rd = bytes(rng.randrange(256) for _ in range(64)) * (big // 64 + 1)
+            ans = b"\x01a\x00" + b"\x00\x0a\x00\x01\x00\x00\x00\x3c" + big.to_bytes(2, "big") + rd[:big]
+            arec = lambda n: b"\xc0\x0c\x00\x01\x00\x01\x00\x00\x00\x3c\x00\x04" + bytes([10, 0, 0, n])
+            pre = [arec(9)] * rng.choice([0, 0, 1])
+            ns = [arec(1)] * rng.choice([1, 2])
+            ar = [arec(2)] * rng.choice([0, 1, 3])
+            if j % 4 == 3:
+                pre = [ans]              # two big answers: the second one starts beyond 65535 as well
+            m = (b"\x12\x34\x81\x80\x00\x01" + (len(pre) + 1).to_bytes(2, "big") + len(ns).to_bytes(2, "big") + len(ar).to_bytes(2, "big")
+                 + b"\x01a\x00\x00\x01\x00\x01" + b"".join(pre) + ans + b"".join(ns) + b"".join(ar))
+            out.append("il%d iter %s" % (j, GM.hx(m)))
+            out.append("fl%d rrset 1 %s" % (j, GM.hx(m)))
         return out
 
     def classify(self, line, impl):
